@@ -63,6 +63,7 @@ type step struct {
 	Op         string `json:"op"`                    // arrive | tick | release | remove
 	Prio       string `json:"prio,omitempty"`        // arrive: value of x-prio ("" = header absent)
 	Hold       bool   `json:"hold,omitempty"`        // arrive: hold it between slot check and registration
+	HoldLate   bool   `json:"hold_late,omitempty"`   // ... at the later yield point: after the watch-list registration, before the enqueue
 	HoldRemove bool   `json:"hold_remove,omitempty"` // arrive: hold its clean-up goroutine before the removal
 	N          int    `json:"n,omitempty"`           // tick: how many; release/remove: which held goroutine
 }
@@ -178,6 +179,7 @@ type rq struct {
 	PrioName   string
 	P          int
 	hold       bool
+	holdLate   bool // hold at queue.between-watch-and-enqueue instead of queue.slot-checked
 	holdRemove bool
 
 	startSeq, checkSeq, regSeq int
@@ -247,7 +249,12 @@ func installHooks() {
 			return
 		}
 		switch point {
-		case "queue.slot-checked":
+		case "queue.slot-checked", "queue.between-watch-and-enqueue":
+			// one hold point per arrival; both lie inside the slot mutex and before the request is in the
+			// queue, so the rest of the controller treats them alike ("passed the slot check, not registered")
+			if (point == "queue.between-watch-and-enqueue") != r.holdLate {
+				return
+			}
 			r.atSlot = true
 			w.cond.Broadcast()
 			for r.hold && !r.slotReleased {
@@ -560,7 +567,7 @@ func (x *executor) arrive(st step) error {
 	// goroutine left over from an earlier case can never be mistaken for one of this case
 	id := fmt.Sprintf("r%d", len(x.order)+1)
 	txid := fmt.Sprintf("c%d-%s", x.caseID, id)
-	r := &rq{ID: id, PrioName: st.Prio, P: prioNum(st.Prio), hold: st.Hold, holdRemove: st.HoldRemove, startSeq: x.seq, checkSeq: x.seq, arrivedAt: x.clk.Now()}
+	r := &rq{ID: id, PrioName: st.Prio, P: prioNum(st.Prio), hold: st.Hold, holdLate: st.HoldLate, holdRemove: st.HoldRemove, startSeq: x.seq, checkSeq: x.seq, arrivedAt: x.clk.Now()}
 	x.w.locked(func() { x.w.reqs[txid] = r })
 	x.order = append(x.order, r)
 	x.byID[id] = r
@@ -1313,6 +1320,7 @@ func genSched() *rapid.Generator[sched] {
 				out = append(out, step{Op: "arrive",
 					Prio:       rapid.SampledFrom(palette).Draw(t, "prio"),
 					Hold:       rapid.IntRange(0, 7).Draw(t, "hold") == 7,
+					HoldLate:   rapid.Bool().Draw(t, "hold-late"),
 					HoldRemove: rapid.IntRange(0, 7).Draw(t, "holdrm") == 7})
 				if rapid.IntRange(0, 9).Draw(t, "loose1") == 9 {
 					out = append(out, loose.Draw(t, "l1"))
